@@ -1543,10 +1543,19 @@ func (c *DnsController) NormalizeAndCacheDnsResp_(msg *dnsmessage.Msg, responseC
 
 	q := msg.Question[0]
 
-	// Get TTL.
+	// Get TTL: the answer is cached and served as a whole, so it may live only as
+	// long as its shortest-lived record (e.g. a CNAME with a long TTL followed by
+	// the short-lived addresses of its target). Only the answer section counts:
+	// the TTL field of an OPT pseudo-record in the additional section is not a TTL.
+	// This must happen before the A/AAAA TTLs are zeroed below.
 	var ttl uint32
 	if len(msg.Answer) > 0 {
 		ttl = msg.Answer[0].Header().Ttl
+		for _, rr := range msg.Answer[1:] {
+			if t := rr.Header().Ttl; t < ttl {
+				ttl = t
+			}
+		}
 	} else {
 		// NXDomain or empty answer
 		ttl = minFirefoxCacheTtl
